@@ -413,18 +413,13 @@ def layout(codec, m):
     return L
 
 
-_PRIM = re.compile(rb"^(?:@[^\s@({]+(?:\((?:[^()\"]|\"[^\"]*\")*\))?\s*)*([^\s\"@{}(),;:]+)$")
+_PRIM = re.compile(rb"^[^\s\"@{}(),;:]+$")
 
 
 def primitive_tokens(text):
-    """byte ranges (lo, hi) of a bare top level primitive (identifier, number, boolean, blob): either
-    the whole text, or the value that follows a run of attributes."""
-    if not text or text[:1] in (b'"', b"{"):
-        return []
-    m = _PRIM.match(text)
-    if not m:
-        return []
-    return [(m.start(1), m.end(1))]
+    """byte range (lo, hi) of a Recon text that is one bare top level primitive token (identifier,
+    number, boolean, blob) - what IncrementalReconParser::parse_init reads with the complete:: parsers"""
+    return [(0, len(text))] if text and _PRIM.match(text) else []
 
 
 def defined_tags(info):
@@ -439,9 +434,9 @@ HARNESS = ("h_core", "framing")
 
 BUDGET = {
     # reps: representatives per codec used in sequences; b3_reps: ... in the model checked sequences
-    "quick": dict(small=True, reps=4, max_frames=2, cuts_single=2, cuts_seq=1, double_budget=6000, sim=250,
+    "quick": dict(small=True, reps=4, max_frames=2, cuts_single=2, cuts_pair=1, cuts_longer=1, double_budget=6000, byte_budget=1500, sim=400,
                   sim_depth=400, b3_reps=1, b3_frames=2, live_seqs=40, chunk=120000, par=3, bad_frag=("whole", "bytes", "field")),
-    "thorough": dict(small=False, reps=6, max_frames=3, cuts_single=2, cuts_seq=2, double_budget=600000, sim=6000,
+    "thorough": dict(small=False, reps=5, max_frames=3, cuts_single=2, cuts_pair=2, cuts_longer=1, double_budget=700000, byte_budget=10 ** 9, sim=3000,
                      sim_depth=800, b3_reps=3, b3_frames=3, live_seqs=400, chunk=400000, par=4, bad_frag=("whole", "bytes", "field")),
 }
 
@@ -457,7 +452,8 @@ def atom_of(L, off):
     raise ValueError("offset %d outside the frame" % off)
 
 
-ROLE_BAD = {"tag": "tag", "flags": "tag", "tag3": "tag", "len": "len", "len61": "len"}
+# "tag" = a value outside the closed tag set must be rejected; "len" = any answer but an answer
+ROLE_BAD = {"tag": "tag", "flags": "tag", "tag3": "tag", "len": "len", "len61": "len", "byte": "len"}
 
 
 def corrupt_atoms(codec, L, role, off):
@@ -468,8 +464,8 @@ def corrupt_atoms(codec, L, role, off):
     need = off - s + 1
     if role == "tag" and codec.startswith("store_resp") and off == 0:
         need = 2                      # "if src.remaining() <= TAG_LEN"
-    if role == "tag3" and codec == "req":
-        need = atoms[ai][0]           # the typed request decoder rejects the tag after the path was read
+    if role == "tag3":
+        need = atoms[ai][0]           # the routed message decoders look at the tag once the header (raw: the frame) is there
     if role == "tag" and off == 8:
         need = 9
     atoms[ai][2] = need
@@ -485,26 +481,29 @@ def field_values(role, info, stream, off, width):
         cands = [max(defined) + 1, 0x7f, 0xff] + ([0] if 0 not in defined else []) + ([max(defined) + 2] if info == "map_op" else [])
         for v in cands:
             if v not in defined and 0 <= v <= 255:
-                out.append(("undefined tag %d" % v, bytes([v])))
+                out.append(("undefined tag %d" % v, bytes([v]), v))
     elif role == "flags":
         for v in (cur[0] | 0x10, cur[0] | 0x80, 0xf0 | cur[0]):
-            out.append(("undefined flag bits 0x%02x" % v, bytes([v])))
+            out.append(("undefined flag bits 0x%02x" % v, bytes([v]), v))
     elif role == "tag3":
         for t in ((4, 5, 6, 7) if info == "req" else (0, 1, 2, 3)):
-            out.append(("tag %d of the opposite direction" % t, bytes([(t << 5) | (cur[0] & 0x1f)])))
+            out.append(("tag %d of the opposite direction" % t, bytes([(t << 5) | (cur[0] & 0x1f)]), t))
     elif role == "len":
         n = int.from_bytes(cur, "big")
         top = (1 << (8 * width))
         vals = [0, n - 1, n + 1, 0xffff, top >> 1, top - 1] + ([1 << 32, 1 << 56, top - 9] if width == 8 else [])
         for v in vals:
             if 0 <= v < top and v != n:
-                out.append(("length %d -> %d" % (n, v), v.to_bytes(width, "big")))
+                out.append(("length %d -> %d" % (n, v), v.to_bytes(width, "big"), v))
+    elif role == "byte":
+        for x in (0x01, 0x80, 0xff):
+            out.append(("byte 0x%02x -> 0x%02x" % (cur[0], cur[0] ^ x), bytes([cur[0] ^ x]), cur[0] ^ x))
     elif role == "len61":
         word = int.from_bytes(cur, "big")
         n, tag = word & ((1 << 61) - 1), word >> 61
         for v in (0, n - 1, n + 1, 0xffff, 1 << 32, 1 << 56, (1 << 61) - 1):
             if 0 <= v < (1 << 61) and v != n:
-                out.append(("length %d -> %d" % (n, v), ((tag << 61) | v).to_bytes(8, "big")))
+                out.append(("length %d -> %d" % (n, v), ((tag << 61) | v).to_bytes(8, "big"), v))
     return out
 
 
@@ -515,6 +514,8 @@ class Frame:
         self.codec, self.idx, self.msg = codec, idx, msg
         self.layout = layout(codec, msg)
         self.len = self.layout.n
+        # byte-level mutation: every byte of the frame is a corruptible pseudo field
+        self.layout.fields += [("byte", off, 1, None) for off in range(self.len)]
         self.rep = False
         self.bytes = None          # encoded bytes (from the real encoder), filled by the probe
         self.values = None         # per field: list of (what, replacement bytes)
@@ -726,45 +727,48 @@ def pieces_of(cuts, L):
 
 
 def to_events(case, ci, res):
-    """trace events of all runs of a case; run ids "ci.ri" """
+    """trace events (ndjson lines) of all runs of a case; run ids "ci.ri" """
     ev = []
     if "abort" in res:
+        ends = [sum(f.len for f in case.frames[:k + 1]) for k in range(len(case.frames))]
+        head = json.dumps(case.reset_event("@", ends), separators=(",", ":"))
         for ri, pieces in enumerate(case.runs):
-            ev.append(case.reset_event("%d.%d" % (ci, ri), [sum(f.len for f in case.frames[:k + 1]) for k in range(len(case.frames))]))
-            ev.append({"k": "r", "n": sum(pieces)})
-            ev.append({"k": "d", "r": "abort", "c": 0, "m": 0})
+            ev.append(head.replace('"@"', '"%d.%d"' % (ci, ri), 1))
+            ev.append('{"k":"r","n":%d}' % sum(pieces))
+            ev.append('{"k":"d","r":"abort","c":0,"m":0}')
         return ev
-    ends = res["ends"]
+    head = json.dumps(case.reset_event("@", res["ends"]), separators=(",", ":"))
     for ri, run in enumerate(res["runs"]):
-        ev.append(case.reset_event("%d.%d" % (ci, ri), ends))
+        ev.append(head.replace('"@"', '"%d.%d"' % (ci, ri), 1))
         for e in run["ev"]:
             if e[0] == "r":
-                ev.append({"k": "r", "n": e[1]})
+                ev.append('{"k":"r","n":%d}' % e[1])
             else:
-                ev.append({"k": e[0], "r": e[1], "c": e[2], "m": e[3]})
+                ev.append('{"k":"%s","r":"%s","c":%d,"m":%d}' % (e[0], e[1], e[2], e[3]))
     return ev
 
 
-_TAG = re.compile(r'^<<"([A-Z_]+)", "(.*)">>$')
-
-
-def validate(events, wd, name):
-    """one TLC run of Trace_Framing over a list of events -> (result record, rejects, drifts)"""
+def validate(lines, wd, name):
+    """one TLC run of Trace_Framing over a list of ndjson lines -> (result record, rejects, drifts)"""
     d = os.path.join(wd, name)
-    r = core.trace_validate("Trace_Framing", events, d, timeout=3000, xmx="6g")
-    rejects, drifts = [], []
-    with open(os.path.join(d, "Trace_Framing.out")) as fh:
-        for line in fh:
-            m = _TAG.match(line.rstrip("\n"))
-            if not m or m.group(1) not in ("REJECT", "DRIFT"):
-                continue
-            obj = json.loads(core._unescape_tla_string(m.group(2)))
-            (rejects if m.group(1) == "REJECT" else drifts).append(obj)
-    if r.get("matched") != r.get("total"):
-        raise core.ToolError("Trace_Framing stopped at event %s of %s (%s)" % (r.get("matched"), r.get("total"), name))
-    if r.get("rejected") != len(rejects):
-        raise core.ToolError("Trace_Framing: %s rejections counted, %d reported" % (r.get("rejected"), len(rejects)))
-    return r, rejects, drifts
+    os.makedirs(d, exist_ok=True)
+    tp = os.path.join(d, "trace.ndjson")
+    with open(tp, "w") as fh:
+        fh.write("\n".join(lines))
+        fh.write("\n")
+    cfg = core.cfg(spec="TraceSpec", postcondition="TraceAccepted")
+    r = core.run_tlc("Trace_Framing", cfg, d, workers=1, timeout=3000, depth_first=True, env={"TRACE": tp}, xmx="6g",
+                     coverage=False)
+    res = r.tagged.get("TRACE_RESULT")
+    if not res:
+        raise core.ToolError("Trace_Framing printed no TRACE_RESULT (%s)\n%s" % (name, r.stdout[-2000:]))
+    res = res[-1]
+    rejects, drifts = r.tagged.get("REJECT", []), r.tagged.get("DRIFT", [])
+    if res.get("matched") != res.get("total") or res.get("total") != len(lines):
+        raise core.ToolError("Trace_Framing stopped at event %s of %s (%s)" % (res.get("matched"), len(lines), name))
+    if res.get("rejected") != len(rejects):
+        raise core.ToolError("Trace_Framing: %s rejections counted, %d reported" % (res.get("rejected"), len(rejects)))
+    return res, rejects, drifts
 
 
 def validate_all(cases, results, wd, b, label):
@@ -782,7 +786,9 @@ def validate_all(cases, results, wd, b, label):
     rej, dr, runs = {}, set(), 0
 
     def work(i):
-        return validate(chunks[i], wd, "tv_%s_%d" % (label, i))
+        out = validate(chunks[i], wd, "tv_%s_%d" % (label, i))
+        chunks[i] = None
+        return out
     with concurrent.futures.ThreadPoolExecutor(max_workers=b["par"]) as ex:
         for (r, rejects, drifts) in ex.map(work, range(len(chunks))):
             runs += r["runs"]
@@ -840,7 +846,8 @@ def run(tier, out):
     sim_layouts = [dict(id="%s/%d" % (f.codec, f.idx), codec=f.codec, rep=f.rep, bad="ok", at=0, atoms=f.layout.atoms)
                    for f in frames]
     write_data(os.path.join(gen_dir, "FramingData.tla"), sim_layouts, frames)
-    cfg = core.cfg(constants={"MaxFrames": b["max_frames"], "CutsSingle": b["cuts_single"], "CutsSeq": b["cuts_seq"]},
+    cfg = core.cfg(constants={"MaxFrames": b["max_frames"], "CutsSingle": b["cuts_single"], "CutsPair": b["cuts_pair"],
+                              "CutsLonger": b["cuts_longer"]},
                    invariants=["Dump"])
     g = core.run_tlc("Gen_Framing", cfg, os.path.join(wd, "gen"), workers=1, coverage=False,
                      spec_dirs=(core.SPECS, gen_dir), timeout=1500, xmx="6g")
@@ -853,7 +860,7 @@ def run(tier, out):
         len(cut_cases), len(bad_cases), g.wall))
 
     # behaviours of the specification itself: random fragmentations down to one byte per read
-    cfg = core.cfg(constants={"MaxFrames": b["max_frames"], "PieceBounds": {1, 2, 3, 7, 1000}, "RecordHist": True},
+    cfg = core.cfg(constants={"MaxFrames": b["max_frames"], "PieceBounds": {1, 2, 3, 5, 8, 16}, "RecordHist": True},
                    invariants=["SimDump"])
     cfg += "CONSTANT Layouts <- DataLayouts\nCONSTANT GivenSeqs <- DataSeqs\n"
     s = core.run_tlc("MC_Framing", cfg, os.path.join(wd, "sim"), workers=1, coverage=False,
@@ -897,11 +904,18 @@ def run(tier, out):
         clean.append(Case("s%d" % len(clean), [by_idx[i] for i in seq], runs))
 
     corrupt = []
+    # byte-level mutations: all of them if the budget allows, otherwise a seeded sample
+    is_byte = [by_idx[c["frame"]].layout.fields[c["field"] - 1][0] == "byte" for c in bad_cases]
+    n_byte_all = sum(is_byte)
+    if n_byte_all > b["byte_budget"]:
+        keep = set(rng.sample([i for i, x in enumerate(is_byte) if x], b["byte_budget"]))
+        bad_cases = [c for i, c in enumerate(bad_cases) if not is_byte[i] or i in keep]
+    n_byte_used = min(n_byte_all, b["byte_budget"])
     for c in bad_cases:
         f = by_idx[c["frame"]]
         prefix = [by_idx[i] for i in c["prefix"]]
         role, off, w, info = f.layout.fields[c["field"] - 1]
-        what, repl = f.values[c["field"] - 1][c["val"] - 1]
+        what, repl, value = f.values[c["field"] - 1][c["val"] - 1]
         base = sum(p.len for p in prefix)
         L = base + f.len
         atoms, at = corrupt_atoms(f.codec, f.layout, role, off)
@@ -910,7 +924,7 @@ def run(tier, out):
             k = Case("b%d" % len(corrupt), prefix + [f], [frag[name]],
                      mut=[{"at": base + off, "set": repl.hex()}],
                      bad=(len(prefix) + 1, ROLE_BAD[role], at, atoms, "%s (%s at offset %d of frame %d)" % (what, role, off, len(prefix) + 1)))
-            k.bad_role = role
+            k.bad_role, k.bad_value, k.bad_width, k.bad_off = role, value, w, off
             corrupt.append(k)
 
     # ---- replay on the real decoders
@@ -936,8 +950,8 @@ def run(tier, out):
             codec_pairs=len(CODECS), pool_messages=len(frames),
             streams=len(all_cases), corrupted_streams=len(corrupt),
             double_cut_fragmentations_enumerated=n_double_all, double_cut_fragmentations_replayed=n_double_used,
-            simulated_behaviours=len(sims),
-            exhaustive=(n_double_used == n_double_all),
+            simulated_behaviours=len(sims), byte_mutations_enumerated=n_byte_all, byte_mutations_replayed=n_byte_used,
+            exhaustive=(n_double_used == n_double_all and n_byte_used == n_byte_all),
             rule="TLC (Gen_Framing) enumerates every message sequence of every codec pair (every pool message; every "
                  "sequence of up to %d representatives) with every single cut point and every pair of cut points, and "
                  "every (field, boundary value) corruption; TLC -simulate (MC_Framing) adds random multi-splits down to one "
@@ -992,15 +1006,32 @@ WRONG_TAG = ("a message was produced for a frame whose tag is not one of the cod
              "a frame whose tag is not one of the codec was silently dropped")
 
 
+RESERVING = ("dl_op", "req_raw", "resp_raw", "resp")     # decoders that reserve(len) before the body is there
+
+
 def finding_of_corruption(case, why):
     """the listed finding (id) a rejected corruption run matches by its specific signature"""
-    role, codec = case.bad_role, case.frames[0].codec
+    role, codec, v, width = case.bad_role, case.frames[0].codec, case.bad_value, case.bad_width
+    if role == "byte":
+        # a flipped byte inside a length field is a corrupted length: take the value the field now has
+        f = case.frames[case.bad[0] - 1]
+        off = case.bad_off
+        for (r2, o2, w2, info) in f.layout.fields:
+            if r2 in ("len", "len61") and o2 <= off < o2 + w2:
+                cur = bytearray(f.bytes[o2:o2 + w2])
+                cur[off - o2] = v
+                word = int.from_bytes(cur, "big")
+                role, width, v = r2, w2, (word & ((1 << 61) - 1)) if r2 == "len61" else word
+                break
     if role == "tag3" and codec in ("req_raw", "resp_raw", "resp") and why in WRONG_TAG:
         return "KF4"
     if role == "flags" and codec in ("cmd_raw", "cmd") and why in WRONG_TAG:
         return "KF5"
     if role in ("len", "len61") and why.startswith(DID_NOT_RETURN):
-        return "KF6"
+        if codec in RESERVING and (1 << 32) <= v < (1 << 64) - 8:
+            return "KF7"
+        if role == "len" and width == 8 and v >= (1 << 64) - 32:
+            return "KF6"
     return None
 
 
@@ -1009,7 +1040,8 @@ def replay_obj(case, ri, res):
          "pieces": case.runs[ri], "mut": case.mut}
     if case.bad:
         pos, kind, at, atoms, what = case.bad
-        o["bad"] = {"frame": pos, "kind": kind, "at": at, "atoms": atoms, "what": what, "role": case.bad_role}
+        o["bad"] = {"frame": pos, "kind": kind, "at": at, "atoms": atoms, "what": what, "role": case.bad_role,
+                    "value": case.bad_value, "width": case.bad_width, "off": case.bad_off}
     if "abort" in res:
         o["observed"] = {"abort": res["abort"]}
     else:
@@ -1097,11 +1129,15 @@ def replay(path, out):
     obj = json.load(open(path))["replay"]
     codec = obj["codec"]
     frames = [Frame(codec, i, m) for i, m in enumerate(obj["msgs"])]
+    probe = run_harness_cases([{"id": i, "codec": codec, "msgs": [f.msg], "runs": [], "dump": True} for i, f in enumerate(frames)],
+                              wd, "probe")
+    for f, r in zip(frames, probe):
+        f.bytes = bytes.fromhex(r["stream"])
     case = Case("r0", frames, [obj["pieces"]], mut=obj.get("mut"))
     if obj.get("bad"):
         bd = obj["bad"]
         case.bad = (bd["frame"], bd["kind"], bd["at"], bd["atoms"], bd["what"])
-        case.bad_role = bd["role"]
+        case.bad_role, case.bad_value, case.bad_width, case.bad_off = bd["role"], bd["value"], bd["width"], bd["off"]
     res = run_harness_cases([case.harness()], wd, "replay", survive_abort=True)[0]
     print("observed:", json.dumps(res)[:3000])
     r, rejects, drifts = validate(to_events(case, 0, res), wd, "tv")
